@@ -23,6 +23,10 @@ class Verifier(Exec):
         self.specfun_axioms = set()
         self.pending_specfun = []
         self.unfolding = 0
+        self.cut_pcs = []
+        self.cut_reason = ''
+        self.expand_small_quants = False
+        self.sf_memo = {}
         self.last_anchor_line = {}
         self.unfolded = set()
 
@@ -294,6 +298,19 @@ class Verifier(Exec):
             self.flatten(s_, flat)
         rsort = BOOL if sf.ret == 'bool' else INT
         fname = 'sf:' + sf.name
+        if sf.body is not None and sf.decreases is not None and self.expand_small_quants:
+            # bounded mode: a concrete measure means the recursion can be unfolded completely (memoised)
+            env = dict((p[0], s_) for p, s_ in zip(sf.params, snaps))
+            meas = SpecEval(self, ev.st, env, None, 'decreases of ' + sf.name).term(parse_expr(sf.decreases))
+            if meas.is_int() and meas.val <= 64:
+                key = (sf.name, tuple(flat))
+                if key in self.sf_memo:
+                    return self.sf_memo[key]
+                sub_ = SpecEval(self, ev.st, env, None, 'spec func ' + sf.name)
+                body = sub_.ev(sf.expr)
+                body = self.ctx.name('sf_' + sf.name, body)
+                self.sf_memo[key] = body
+                return body
         if fname not in self.ctx.declared:
             self.ctx.declare_fun(fname, [t.sort for t in flat], rsort)
         r = app(fname, flat, rsort)
@@ -935,6 +952,8 @@ class Verifier(Exec):
             if frame is None:
                 continue
             for r in regs:
+                if r[0] == 'initbits':
+                    continue
                 if r[0] == 'slice':
                     k = const('fk!', INT)
                     n = self.ctx.counter.get('q:fk', 0)
@@ -1067,6 +1086,23 @@ class Verifier(Exec):
         return n
 
     # ------------------------------------------------------------------ one instruction
+    def is_cut(self, line):
+        spec = self.spec
+        if not spec or not getattr(spec, 'cuts', None) or not line or self.opts.get('nocut'):
+            return False
+        if self.srclines is None:
+            try:
+                self.srclines = open(self.fn['file']).read().split('\n')
+            except (IOError, KeyError):
+                self.srclines = []
+        if line - 1 >= len(self.srclines):
+            return False
+        for anchor, reason in spec.cuts:
+            if anchor in self.srclines[line - 1]:
+                self.cut_reason = reason
+                return True
+        return False
+
     def anchors_at(self, st, line):
         spec = self.spec
         if not spec or not getattr(spec, 'anchored', None) or not line:
@@ -1404,6 +1440,10 @@ class Verifier(Exec):
         blk = self.cfg.blocks[b]
         for ins in blk['instrs']:
             op = ins['op']
+            if self.is_cut(ins.get('line')):
+                self.ctx.notes.append('unbounded verification of %s stops at line %d (%s); the rest of the function is covered by bounded checks only' % (short_fn(self.fname), ins['line'], self.cut_reason))
+                self.cut_pcs.append(st.pc)
+                return
             if op == 'Phi':
                 if len(self.cfg.preds[b]) == 1 or ins['name'] not in st.regs:
                     # single predecessor: value of the only edge
@@ -1590,6 +1630,10 @@ class Verifier(Exec):
         lem = self.specs.lemmas.get(e[1][1])
         if lem is None:
             raise SpecError('%s: unknown lemma %s' % (u.src, e[1][1]))
+        if lem.bounded:
+            self.trusted.add('lemma %s: checked exhaustively for the shapes in its box only (bounded), assumed beyond' % lem.name)
+        elif lem.trusted:
+            self.trusted.add('lemma %s (trusted, not proved)' % lem.name)
         ev = SpecEval(self, st, env, self.old, u.src)
         args = [ev.ev(a) for a in e[2]]
         lenv = dict((p[0], a) for p, a in zip(lem.params, args))
@@ -1640,7 +1684,8 @@ class LemmaVerifier(Verifier):
     (hypothesis: the lemma for v-1 with the other parameters universally quantified is NOT assumed; only the
     instance with the same other parameters - plus any explicit `use` of other lemmas)."""
 
-    def __init__(self, prog, specs, lem, pkg, resolver=None):
+    def __init__(self, prog, specs, lem, pkg, resolver=None, concrete=None):
+        self.concrete = concrete
         fname = 'lemma.' + lem.name
         prog.funcs[fname] = lemma_function(pkg, lem.name)
         try:
@@ -1671,13 +1716,35 @@ class LemmaVerifier(Verifier):
             env[pn] = self.formal('L:%s.%s' % (lem.name, pn), self.parse_type(pt))
             self.declare_formal(env[pn])
             self.assume_formal_valid(env[pn])
+        if self.concrete is not None:
+            self.expand_small_quants = True
+            for key, val in self.concrete.items():
+                mk = re.match(r'^(clen|len)\((\w+)\)$', key)
+                if mk:
+                    fv = env[mk.group(2)]
+                    if isinstance(fv, SnapV):
+                        sq = fv.f['slice']
+                        nf = dict(fv.f)
+                        nf['slice'] = SeqV(sq.a, sq.off, I(val), sq.elem, sq.alt)
+                        env[mk.group(2)] = SnapV(fv.tid, nf)
+                    else:
+                        env[mk.group(2)] = SeqV(fv.a, fv.off, I(val), fv.elem, fv.alt)
+                else:
+                    pt_ = dict(lem.params).get(key)
+                    env[key] = B(bool(val)) if pt_ == 'bool' else I(val)
         self.cur_line = 0
         self.cur_detail = 'lemma'
         self.nreq = len(lem.requires)
+        self.req_false = False
         for cl in lem.requires:
-            c.assume(self.eval_clause(cl, st, env, None))
+            t_ = self.eval_clause(cl, st, env, None)
+            if t_.is_bool() and not t_.val:
+                self.req_false = True
+            c.assume(t_)
         self.entry_nassert = len(c.asserts)
-        if lem.induction:
+        if self.req_false:
+            return c
+        if lem.induction and self.concrete is None:
             v = lem.induction
             if v not in env or not isinstance(env[v], T):
                 raise SpecError('%s: induction variable %s must be an int parameter' % (lem.src, v))
